@@ -91,12 +91,22 @@ fn history(variant: u64, s: &mut u64) {
                 hs.swap_remove(i);
             }
             3 => {
-                // to_dyn! lists only the Rc variant among the owning ones
-                if variant == 0 {
-                    if let H::C(c) = &hs[i] {
-                        let c = c.clone();
+                // to_dyn! lists only the Rc variant among the owning ones: there it must succeed. For
+                // the Arc variants it may refuse (panic); if it converts, the result is one more handle
+                // and is held to the same aliasing / liveness rules as every other.
+                if let H::C(c) = &hs[i] {
+                    let c = c.clone();
+                    if variant == 0 {
                         let d: Reference<dyn Cellish> = to_dyn!(Cellish, c);
                         hs.push(H::D(d));
+                    } else {
+                        let r = std::panic::catch_unwind(std::panic::AssertUnwindSafe(move || {
+                            let d: Reference<dyn Cellish> = to_dyn!(Cellish, c);
+                            d
+                        }));
+                        if let Ok(d) = r {
+                            hs.push(H::D(d));
+                        }
                     }
                 }
             }
@@ -113,6 +123,57 @@ fn history(variant: u64, s: &mut u64) {
     }
     drop(hs);
     assert_eq!(drops.load(Ordering::SeqCst), 1);
+}
+
+/// Directed case for every owning variant: convert, drop every concrete handle, keep using the
+/// trait-object handle. Either the conversion is refused or the result keeps the target alive.
+fn to_dyn_outlives(variant: u64) {
+    println!("CASE refs to_dyn_outlives variant={}", variant);
+    let drops = Arc::new(AtomicUsize::new(0));
+    let payload = Payload { v: 7, drops: drops.clone() };
+    let first = match variant {
+        0 => rc_ref_cell_reference(payload),
+        1 => arc_rw_lock_reference(payload),
+        _ => arc_mutex_reference(payload),
+    };
+    for by_clone in [true, false] {
+        let src = first.clone();
+        let keep = if by_clone { Some(src.clone()) } else { None };
+        let r = std::panic::catch_unwind(std::panic::AssertUnwindSafe(move || {
+            let d: Reference<dyn Cellish> = to_dyn!(Cellish, src);
+            d
+        }));
+        assert!(variant != 0 || r.is_ok(), "to_dyn! must succeed for the Rc variant");
+        if let Ok(d) = r {
+            drop(keep);
+            d.borrow_mut().write(8);
+            assert_eq!(first.borrow().read(), 8, "the converted handle aliases the same object");
+            if !by_clone {
+                // last round: the trait-object handle is the only one left
+                let d2 = d.clone();
+                drop(d);
+                let last = first.clone();
+                drop(last);
+                assert_eq!(drops.load(Ordering::SeqCst), 0);
+                let _ = d2.borrow().read();
+            }
+        }
+    }
+    let d = {
+        let src = first.clone();
+        std::panic::catch_unwind(std::panic::AssertUnwindSafe(move || {
+            let d: Reference<dyn Cellish> = to_dyn!(Cellish, src);
+            d
+        }))
+    };
+    drop(first);
+    if let Ok(d) = d {
+        assert_eq!(drops.load(Ordering::SeqCst), 0, "the target was dropped while a Reference<dyn _> to it is alive");
+        d.borrow_mut().write(9);
+        assert_eq!(d.borrow().read(), 9);
+        drop(d);
+    }
+    assert_eq!(drops.load(Ordering::SeqCst), 1, "target dropped exactly once, with the last handle");
 }
 
 fn statics() {
@@ -161,6 +222,12 @@ fn threads() {
 
 fn main() {
     let args: Vec<String> = std::env::args().collect();
+    // refusals of to_dyn! (unimplemented!()) are expected: keep them out of the output
+    std::panic::set_hook(Box::new(|info| {
+        if !info.to_string().contains("not implemented") {
+            eprintln!("{}", info);
+        }
+    }));
     let mut s: u64 = args.get(1).and_then(|x| x.parse().ok()).unwrap_or(1);
     let count: u64 = args.get(2).and_then(|x| x.parse().ok()).unwrap_or(12);
     let mut cases = 0;
@@ -168,7 +235,10 @@ fn main() {
         history(k % 3, &mut s);
         cases += 1;
     }
+    for v in 0..3 {
+        to_dyn_outlives(v);
+    }
     statics();
     threads();
-    println!("DONE cases={}", cases + 2);
+    println!("DONE cases={}", cases + 5);
 }
